@@ -1,6 +1,7 @@
 (* C13 - property theorems only.  Each is closed by [exact] of a lemma of the
    Proofs files and followed by Print Assumptions. *)
-From VF.C13 Require Import Model Proofs Proofs2 Proofs3 Proofs5 Proofs6 Proofs7 Proofs8 Proofs9 Proofs10 Proofs11 Proofs12 Proofs13 Proofs14.
+From VF.C13 Require Import Model Proofs Proofs2 Proofs3 Proofs5 Proofs6 Proofs7 Proofs8 Proofs9 Proofs10 Proofs11 Proofs12 Proofs13 Proofs14 Bridge.
+From VF.gen Require Import C13Counters.
 From VF.C13 Require Import Proofs4.
 From Coq Require Import Sorted.
 From VF.Lib Require Import Keccak.
@@ -239,12 +240,32 @@ Proof. exact commit_seq_ok. Qed.
 Print Assumptions C13_commit_inserts_ok.
 
 (* The width of the counters.  The Go code keeps the parent and children counts
-   in uint16; [run16] is the schedule semantics with these counters reduced mod
-   2^16 after every step that increments, [runN] the exact one.  GUARD: for a
-   schedule with fewer than 65536 reference events (children named by inserted
-   blobs + Reference calls) the two coincide step for step and no counter
-   exceeds the number of events - so C13_gc_safe speaks about the code as
-   written.  (Any schedule of the six operations, no side conditions.) *)
+   in w-bit unsigned integers; [runW w] is the schedule semantics with these
+   counters reduced mod 2^w after every step that increments, [runN] the exact
+   one.  GUARD for w = 32, the width the code declares since the repair
+   8fe169d (pinned to the source by the bridge theorem below): for a schedule
+   with fewer than 2^32 reference events (children named by inserted blobs +
+   Reference calls) the two coincide step for step and no counter exceeds the
+   number of events - so C13_gc_safe speaks about the code as written.  (Any
+   schedule of the six operations, no side conditions.) *)
+Theorem C13_uint32_guard :
+  forall ops, events ops < 4294967296 -> runW 32 ops = runN ops /\ maxctr (runN ops) <= events ops.
+Proof. exact uint32_guard. Qed.
+Print Assumptions C13_uint32_guard.
+
+(* bridge: the widths regenerated from trie/database.go of the working tree are
+   32 bits, and the guard holds for exactly that width *)
+Theorem C13_code_counter_width : parents_bits = 32 /\ children_bits = 32.
+Proof. exact code_counter_width. Qed.
+Print Assumptions C13_code_counter_width.
+
+Theorem C13_code_counter_guard :
+  forall ops, events ops < 2 ^ parents_bits ->
+  runW parents_bits ops = runN ops /\ maxctr (runN ops) <= events ops.
+Proof. exact code_counter_guard. Qed.
+Print Assumptions C13_code_counter_guard.
+
+(* the same guard for w = 16: the counters before the repair (regression witness) *)
 Theorem C13_uint16_guard :
   forall ops, events ops < 65536 -> run16 ops = runN ops /\ maxctr (runN ops) <= events ops.
 Proof. exact uint16_guard. Qed.
@@ -253,8 +274,9 @@ Print Assumptions C13_uint16_guard.
 (* REFUTED beyond the guard: insert one node without children (hash r), reference
    it 65536 times from the meta root, dereference once.  With uint16 counters the
    node is then neither cached nor on disk although 65535 references remain; with
-   exact counters it is cached.  The real code behaves like run16 (replayed
-   against /repo, see fixes/C13_parents_uint16_wrap.md). *)
+   exact counters it is cached.  [run16 = runW 16]: this is what the code did
+   before the repair 8fe169d (fixes/C13_parents_uint16_wrap.md; the schedule is
+   the regression input corpus/C13/a0_parents_uint16_wrap.json). *)
 Theorem C13_gc_uint16_refuted :
   forall r blob, r <> [] -> blob_kids blob = [] ->
   ~ avail (run16 (wrap_schedule r blob)) r /\
